@@ -39,6 +39,11 @@ pub fn decode_all(ctx: &mut Ctx, b: &[u8]) -> Result<(Option<sta_rs::Message>, O
     let a = rx!(ctx, "adss::Share::from_bytes", b, adss::Share::from_bytes(b));
     let _ = rx!(ctx, "load_bytes", b, sta_rs::load_bytes(b).map(|x| x.len()));
     let k = rx!(ctx, "star_sharks::Share::try_from", b, star_sharks::Share::try_from(b).ok());
+    // state cell: which decoders accept x input length class
+    ctx.stats.state(crate::choices::mix(
+        (m.is_some() as u64) | (s.is_some() as u64) << 1 | (a.is_some() as u64) << 2 | (k.is_some() as u64) << 3,
+        (b.len().min(1023) / 8) as u64,
+    ));
     if m.is_some() {
         ctx.stats.probe("decoder_accepted_corrupted_report");
     }
@@ -398,7 +403,7 @@ impl Property for C09 {
         "A + C receivers (aggregator, WASM grouping, randomness server, PPOPRF client)"
     }
     fn rule(&self) -> &'static str {
-        "one run = a world-A history in which EVERY report delivery is corrupted by one drawn byte-level fault (bitflip/byteset/truncate/extend/lenfield/splice/fieldswap/garbage) or replaced by a structurally valid degenerate value, plus per delivery the enumeration of every boundary value in the length/threshold fields and every short prefix; each delivered string is handed to every decoder, decoded shares are pooled and recovered in drawn mixed collections (star, adss, sharks layers, WASM grouping); then a PPOPRF exchange whose public key, proof, request point and evaluation are corrupted / carry undecodable group elements / lack a proof. Oracle: no receiver unwinds. non-trivial = at least one corrupted input was ACCEPTED by a decoder and flowed on into recovery/verification; distinct = distinct event digests"
+        "one run = a world-A history in which EVERY report delivery is corrupted by one drawn byte-level fault (bitflip/byteset/truncate/extend/lenfield/splice/fieldswap/garbage) or replaced by a structurally valid degenerate value, plus per delivery the enumeration of every boundary value in the length/threshold fields and every short prefix; each delivered string is handed to every decoder, decoded shares are pooled and recovered in drawn mixed collections (star, adss, sharks layers, WASM grouping); then a PPOPRF exchange whose public key, proof, request point and evaluation are corrupted / carry undecodable group elements / lack a proof. Oracle: no receiver unwinds. non-trivial = at least one corrupted input was ACCEPTED by a decoder and flowed on into recovery/verification; distinct = distinct event digests; states = (set of decoders that accept, input length / 8) cells"
     }
     fn runs(&self, thorough: bool) -> u64 {
         if thorough { 150_000 } else { 4_000 }
